@@ -24,6 +24,12 @@ Proof.
   - intros _. exists 0%nat, h. split; auto.
   - intros H. destruct (IH H) as (i & w & Hi & Hw). exists (S i), w. split; auto.
 Qed.
+Lemma nlive_ge1 l i w : nth_error l i = Some w -> live (pc w) = true -> 1 <= nlive l.
+Proof.
+  unfold nlive. revert i. induction l as [|h t IH]; intros [|i] H Hl; cbn [nth_error filter] in *; try discriminate.
+  - inversion H; subst. rewrite Hl. cbn [length]. lia.
+  - specialize (IH i H Hl). destruct (live (pc h)); cbn [length]; lia.
+Qed.
 Lemma nlive_map_cancel1 l : nlive (map cancel1 l) = nlive l.
 Proof.
   unfold nlive. induction l as [|h t IH]; cbn [map filter]; [reflexivity|].
@@ -52,7 +58,8 @@ Record InvM (s : gst) : Prop := {
   M_none : forall i w, nth_error (ws s) i = Some w -> (next_idx s <= i)%nat -> pc w = PNone;
   M_wait : (d s = DWait -> f c <= tc s) /\ (d s = FWait -> 0 < tc s);
   M_exit : d s <> DExited;
-  M_len : length (ws s) = ntgt c
+  M_len : length (ws s) = ntgt c;
+  M_bound : 0 <= tc s <= f c
 }.
 
 Lemma invM_init t0 : InvM (init c t0).
@@ -62,6 +69,7 @@ Proof.
   - intros i w H _. apply nth_error_In, repeat_spec in H. subst. reflexivity.
   - split; discriminate.
   - apply repeat_length.
+  - lia.
 Qed.
 
 Ltac upd_cases :=
@@ -92,7 +100,7 @@ Ltac t_hold A2 B1 :=
 
 Lemma invM_step s e s' : InvM s -> step c s e = Some s' -> exited s' = None -> InvM s'.
 Proof.
-  intros [A1 A2 A3 B1 B2 B3 T N W X L] H Hex'. unfold next_idx in *.
+  intros [A1 A2 A3 B1 B2 B3 T N W X L Bd] H Hex'. unfold next_idx in *.
   inv_step H; try discriminate Hex'; clear Hex'; constructor; unfold next_idx;
     cbn [m0 m1 d sp ws tc idx exited setw setw1 setd setsp d_holds sholds];
     rewrite ?updw_length, ?map_length;
@@ -118,6 +126,9 @@ Proof.
                   [match goal with Hw : nth_error (ws _) ?j = Some ?w |- _ => pose proof (N _ _ Hw) as Y end;
                    destruct (d s); cbn [wake] in *; try (specialize (Y Hge); congruence); try (assert (pc w = PNone) by (apply Y; lia); congruence)
                   |destruct (d s); cbn [wake] in *; eapply N; eauto]].
+  all: try solve [lia].
+  all: try solve [match goal with Hw : nth_error (ws _) ?j = Some ?w, Hp : pc ?w = PHold0 |- _ =>
+                    assert (1 <= nlive (ws s)) by (eapply nlive_ge1; [exact Hw|rewrite Hp; reflexivity]); lia end].
   - intros i Hm. destruct (B1 _ Hm) as (w0 & Hn0 & Hh0). exists (cancel1 w0). rewrite nth_error_map_wk, Hn0. split; [reflexivity|].
     rewrite holdpc_cancel1. exact Hh0.
   - intros i w Hn Hge. rewrite nth_error_map_wk in Hn. destruct (nth_error (ws s) i) as [w1|] eqn:E; cbn in Hn; [|discriminate].
@@ -250,6 +261,19 @@ Proof.
   - left. apply (Hm0 EWokenD); [|reflexivity]. intros Hm. unfold step. rewrite Hex, Hm, Ed. discriminate.
   - left. mv EExit Hex. rewrite Ed. reflexivity.
   - exfalso. apply (M_exit _ I). exact Ed.
+Qed.
+
+Lemma inflight_le_nlive l : Z.of_nat (length (filter (fun w => wpc_inflight (pc w)) l)) <= nlive l.
+Proof.
+  unfold nlive. induction l as [|h t IH]; cbn [filter length]; [lia|].
+  destruct (pc h); cbn [wpc_inflight live]; cbn [length]; lia.
+Qed.
+
+(* the fanout bound with interrupts, cancellations, faults and time-outs all in the picture *)
+Theorem bound_always t0 es s : run c (init c t0) es = Some s -> exited s = None -> inflight s <= f c /\ 0 <= tc s <= f c.
+Proof.
+  intros Hr Hex. assert (I : InvM s) by (eapply invM_run; eauto; apply invM_init).
+  pose proof (M_bound _ I). pose proof (M_tc _ I). pose proof (inflight_le_nlive (ws s)). unfold inflight. lia.
 Qed.
 
 Theorem no_deadlock t0 es s : run c (init c t0) es = Some s -> exited s = None -> can_move s \/ hung_worker s.
